@@ -39,4 +39,69 @@ theorem C18_fresh_partial (k : Consts) (compile : List UInt8 → Option (List UI
     the same CRC-32 (fd872ce9) – the second run reports success and keeps the stale destination -/
 theorem C18_fresh_is_false_without_crc_hypothesis : ¬ C18_fresh_statement := C18_fresh_false
 
+/-! ## non-vacuity (BEGIN) -/
+namespace C18_nv
+
+/-- `CrcInjOn` on the members of a finite list is a Bool check -/
+theorem crcInjOn_of_list (L : List (List UInt8))
+    (h : (L.all fun a => L.all fun b => crc32 a != crc32 b || a == b) = true) : CrcInjOn (· ∈ L) := by
+  intro a ha b hb hc
+  have := List.all_eq_true.mp (List.all_eq_true.mp h a ha) b hb
+  simp only [Bool.or_eq_true, bne_iff_ne, ne_eq, beq_iff_eq] at this
+  rcases this with h1 | h1
+  · exact absurd hc h1
+  · exact h1
+
+/-! instance: grammar texts `A='a';`, `A='b';` and the uncompilable `A=`, prefixes `//p⏎` and `//q⏎`, a compiler that
+    fails exactly on `A=`; the history
+    run · edit grammar · run · change prefix · run · delete destination · edit to the bad grammar · run (fails) ·
+    edit back – followed by the final run -/
+def k0 : Consts := ⟨str "0.7.0", str "2024"⟩
+def gA : List UInt8 := str "A='a';"
+def gB : List UInt8 := str "A='b';"
+def gBad : List UInt8 := str "A="
+def pP : List UInt8 := str "//p\n"
+def pQ : List UInt8 := str "//q\n"
+def comp (g : List UInt8) : Option (List UInt8) := if g == gBad then none else some (str "/*code*/" ++ g)
+
+def fs0 : FS := ⟨some gA, none, pP⟩
+def ops : List Op :=
+  [.run, .editGrammar (some gB), .run, .setPrefix pQ, .run, .deleteDest, .editGrammar (some gBad), .run,
+   .editGrammar (some gB)]
+
+/-- the hypotheses of `C18_fresh_partial` -/
+theorem hcG : CrcInjOn (· ∈ grammarTexts fs0 ops) := crcInjOn_of_list _ (by decide +kernel)
+theorem hcP : CrcInjOn (· ∈ prefixTexts fs0 ops) := crcInjOn_of_list _ (by decide +kernel)
+example : grammarTexts fs0 ops = [gA, gB, gBad, gB] ∧ prefixTexts fs0 ops = [pP, pQ] := by decide +kernel
+
+/-- the state before the final run (the failing run left no destination behind), and the final run -/
+def fsPre : FS := runOps k0 comp fs0 ops
+def fsEnd : FS := ⟨some gB, some (output k0 gB pQ (str "/*code*/" ++ gB)), pQ⟩
+theorem pre_eq : fsPre = ⟨some gB, none, pQ⟩ := by decide +kernel
+theorem last_run : Build.step k0 comp (runOps k0 comp fs0 ops) .run = (fsEnd, .ok true) := by decide +kernel
+
+example : ∃ g code, fsEnd.grammar = some g ∧ comp g = some code ∧ fsEnd.dest = some (output k0 g fsEnd.pfx code) :=
+  C18_fresh_partial k0 comp fs0 ops fsEnd true rfl hcG hcP last_run
+
+/-- intermediate steps of the same history: after the first run the destination is the compilation of `A='a';` with
+    prefix `//p`; the run after the prefix change rewrites; the run on the bad grammar fails -/
+example : (runOps k0 comp fs0 [.run]).dest = some (output k0 gA pP (str "/*code*/" ++ gA)) ∧
+    (Build.step k0 comp (runOps k0 comp fs0 [.run, .editGrammar (some gB), .run, .setPrefix pQ]) .run).2 = .ok true ∧
+    (Build.step k0 comp (runOps k0 comp fs0 [.run, .editGrammar (some gBad)]) .run).2 = .err := by decide +kernel
+
+/-- `C18_failure_preserves`: the bad grammar with an existing (stale) destination – the run fails, nothing changes -/
+def fsStale : FS := runOps k0 comp fs0 [.run, .editGrammar (some gBad)]
+theorem stale_fails : (Build.step k0 comp fsStale .run).2 = .err := by decide +kernel
+example : (Build.step k0 comp fsStale .run).1 = fsStale := C18_failure_preserves k0 comp fsStale stale_fails
+example : fsStale.dest = some (output k0 gA pP (str "/*code*/" ++ gA)) := by decide +kernel
+
+/-- `C18_untouched`: the run after `last_run` leaves `fsEnd` alone and reports "not written" -/
+example : Build.step k0 comp fsEnd .run = (fsEnd, .ok false) := C18_untouched k0 comp _ fsEnd true last_run
+/-- `C18_rewrite_only_when_needed` at `fsEnd` -/
+example : Build.step k0 comp fsEnd .run = (fsEnd, .ok false) :=
+  C18_rewrite_only_when_needed k0 comp fsEnd gB (str "/*code*/" ++ gB) rfl rfl
+
+end C18_nv
+/-! ## non-vacuity (END) -/
+
 end Peg.Props
